@@ -25,12 +25,25 @@
     offered the messages addressed to it in order; other queues are
     untouched                                                          C07_lossy_in_order
 
+  INBOUND side, while a session's own handler sleeps in the yield retry
+    loop (C07's bounded exception, `C13_retry_*`): what a socket-
+    attached (`buffered`) session sends meanwhile is neither lost nor
+    handled early — it waits in `inbox` (appended at the end; nothing
+    else changes), stays there while the loop goes on, and when the
+    loop ends becomes that session's `inMsg` tasks, all of them, in
+    arrival order, ahead of its deferred departures; an `inMsg` task is
+    handled exactly like the message arriving then                      C07_inbox_not_lost
+  (in every reachable state the senders of waiting messages are
+    attached, buffered sessions whose handler is still busy:            C05_live_refs_inbox,
+    Nexus/Props/C05.lean — part of `RealmInv`)
+
   Explicit assumption (hypothesis `JoinFresh` of every `join`): a joining session key names no attached
   client and no leftover queue.  Session keys are the model's internal names for sessions (the
   implementation draws fresh random session ids); the harness never reuses one.  Without it the model
   itself violates the bound: see `C07_bound_needs_fresh_join`.
 -/
 import Nexus.L2.Proofs.RealmQueue
+import Nexus.L2.Proofs.DealerRealmRpc
 
 namespace Nexus.C07
 open Nexus.L2 Nexus.L2.Realm Gen.N
@@ -150,6 +163,73 @@ theorem C07_lossy_in_order (r : Realm) (ss : List Send) :
     simp only [List.length_cons] at hroom
     rw [accept_cons, if_pos (by omega), ih (q ++ [m]) (by simp; omega)]
     simp
+
+/-! ## The inbound side: messages sent while the session's handler is in the yield retry loop -/
+
+/-- NOT LOST, NOT HANDLED EARLY.  `inboxOf r k`: the messages of `k` waiting in the transport, oldest first.
+    (1) A message from an attached, not ending, `buffered` session whose handler is busy changes nothing
+        but `inbox`: it is appended at the END (behind everything that already waits); the waiting
+        messages of every other session are as before.
+    (2) A turn of the loop after which the loop goes on (`again = true`) leaves `inbox` (and the deferred
+        departures) untouched; the callee stays busy.
+    (3) The turn that ends the loop (`again = false`): after the tasks the turn itself queued
+        (`retryTasks`), the task list gets EXACTLY the callee's waiting messages as `inMsg` tasks, in
+        arrival order, followed by its deferred departures; afterwards `inbox` holds nothing of the
+        callee, the other sessions' waiting messages are unchanged, and the callee is no longer busy.
+    (4) Running an `inMsg k m` task is, in whatever state it runs, exactly what the arrival of `m` from
+        `k` in that state does (`recvMsg`) — in particular it waits again if the handler is busy again. -/
+theorem C07_inbox_not_lost (r : Realm) :
+    (∀ k s m, r.busy k = true → r.clients.find? (fun c => c.key == k) = some s → s.buffered = true →
+      r.ending.contains k = false →
+      r.stepOp (.msg k m) = { r with inbox := r.inbox ++ [(k, m)] } ∧
+      inboxOf (r.stepOp (.msg k m)) k = inboxOf r k ++ [m] ∧
+      (∀ k', k' ≠ k → inboxOf (r.stepOp (.msg k m)) k' = inboxOf r k')) ∧
+    (∀ x, (retryOut r x).again = true →
+      (r.retryDue x).inbox = r.inbox ∧ (r.retryDue x).deferred = r.deferred ∧
+      (r.retryDue x).tasks = r.tasks ++ retryTasks r x ∧ (r.retryDue x).busy x.callee = true) ∧
+    (∀ x, (retryOut r x).again = false →
+      (r.retryDue x).tasks =
+        r.tasks ++ retryTasks r x ++ (inboxOf r x.callee).map (Task.inMsg x.callee) ++
+          ((r.deferred.filter (fun d => d.1 == x.callee)).map (·.2)).map (Task.leave x.callee) ∧
+      (r.retryDue x).inbox = r.inbox.filter (fun d => d.1 != x.callee) ∧
+      (∀ e ∈ (r.retryDue x).inbox, e.1 ≠ x.callee) ∧
+      inboxOf (r.retryDue x) x.callee = [] ∧
+      (∀ k, k ≠ x.callee → inboxOf (r.retryDue x) k = inboxOf r k) ∧
+      (r.retryDue x).busy x.callee = false) ∧
+    (∀ k m, r.runTask (.inMsg k m) = r.stepOp (.msg k m)) := by
+  refine ⟨?_, ?_, ?_, fun _ _ => rfl⟩
+  · intro k s m hb hf hbuf he
+    have e : r.stepOp (.msg k m) = { r with inbox := r.inbox ++ [(k, m)] } := by
+      rw [stepOp_msg]; exact recvMsg_buffered m hb hf hbuf he
+    refine ⟨e, ?_, ?_⟩
+    · rw [e, inboxOf_append, if_pos rfl]
+    · intro k' hk'
+      rw [e, inboxOf_append, if_neg hk']
+  · intro x ha
+    obtain ⟨h1, h2, h3⟩ := retryDue_holds r x ha
+    refine ⟨h2, h3, h1, ?_⟩
+    unfold Realm.busy
+    rw [retryDue_retries, if_pos ha]
+    simp
+  · intro x ha
+    obtain ⟨h1, h2, _, h4, h5⟩ := retryDue_release r x ha
+    refine ⟨h1, h2, ?_, h4, h5, ?_⟩
+    · intro e he
+      rw [h2] at he
+      simpa using (List.mem_filter.mp he).2
+    unfold Realm.busy
+    rw [retryDue_retries, if_neg (by simp [ha])]
+    exact not_busy_filter _ _
+
+-- non-vacuity of (1): session 1 is attached through a socket and its handler is in the retry loop
+example : let r0 : Realm :=
+      { clients := [{ key := 1, details := [], roles := [], isLocal := false, buffered := true }],
+        retries := [{ callee := 1, req := 5, opts := [], args := [], kw := [], progress := false, start := 0, next := 1, delay := 1 }] }
+    (r0.stepOp (.msg 1 (.unregister 9 3))).inbox = [(1, .unregister 9 3)] ∧
+    inboxOf (r0.stepOp (.msg 1 (.unregister 9 3))) 1 = [.unregister 9 3] := by
+  intro r0
+  have h := (C07_inbox_not_lost r0).1 1 _ (.unregister 9 3) (by decide) rfl rfl (by decide)
+  exact ⟨by rw [h.1]; rfl, by rw [h.2.1]; rfl⟩
 
 /-- Why `JoinFresh` is needed: in the model a departed stalled session leaves its queue behind until it
     "resumes"; re-using its key for a new session with a smaller capacity would start that session
